@@ -123,35 +123,40 @@ var constructs10 = map[string]string{
 	"getvar_no_vars":         "SELECT a, GETVAR('k') AS v FROM {T}",
 	"setvar_getvar_no_vars":  "SELECT SETVAR('k', a), GETVAR('k') AS v, SETVAR('j', GETVAR('k')) FROM {T} WHERE a > 0",
 	"cte_backref_distinct":   "WITH c AS (SELECT (SELECT `<-` AS up FROM dual) AS x FROM {T}) SELECT DISTINCT * FROM c",
-	"cte_backref_order":      "WITH c AS (SELECT (SELECT `<-` AS up FROM dual) AS x, a FROM {T}) SELECT * FROM c ORDER BY x",
-	"cte_backref_order2":     "WITH c AS (SELECT (SELECT `<-` AS up FROM dual) AS x, 1 AS k, a FROM {T}) SELECT * FROM c ORDER BY k, x",
-	"cte_backref_order3":     "WITH c AS (SELECT (SELECT `<-` AS up FROM dual) AS x, 1 AS k, a FROM {T}) SELECT * FROM c ORDER BY k DESC, k, x DESC",
-	"cte_backref_group":      "WITH c AS (SELECT (SELECT `<-` AS up FROM dual) AS x, a FROM {T}) SELECT x, COUNT(*) AS n FROM c GROUP BY x",
-	"cte_backref_where":      "WITH c AS (SELECT (SELECT `<-` AS up FROM dual) AS x, a FROM {T}) SELECT a FROM c WHERE x = x OR x > 1",
-	"cte_backref_like":       "WITH c AS (SELECT (SELECT `<-` AS up FROM dual) AS x, a FROM {T}) SELECT a FROM c WHERE x LIKE 'm%' OR x NOT LIKE '%z'",
-	"cte_backref_in":         "WITH c AS (SELECT (SELECT `<-` AS up FROM dual) AS x, a FROM {T}) SELECT a FROM c WHERE x IN (1, 'a') OR x NOT IN (2)",
-	"cte_backref_between":    "WITH c AS (SELECT (SELECT `<-` AS up FROM dual) AS x, a FROM {T}) SELECT a FROM c WHERE x BETWEEN 1 AND 5",
-	"cte_backref_concat":     "WITH c AS (SELECT (SELECT `<-` AS up FROM dual) AS x, a FROM {T}) SELECT CONCAT(x, 'a') AS v, TO_UPPER(x) AS u FROM c",
-	"cte_backref_sum":        "WITH c AS (SELECT (SELECT `<-` AS up FROM dual) AS x, a FROM {T}) SELECT SUM(x) AS s, MIN(x) AS mn, MAX(x) AS mx, AVG(x) AS av FROM c",
-	"cte_backref_changetype": "WITH c AS (SELECT (SELECT `<-` AS up FROM dual) AS x, a FROM {T}) SELECT CHANGETYPE(x, 'double') AS d, CHANGETYPE(x, 'string') AS s FROM c",
-	"cte_backref_join":       "WITH c AS (SELECT (SELECT `<-` AS up FROM dual) AS x, a FROM {T}) SELECT l.a FROM c l JOIN c r ON l.x = r.x",
-	"cte_backref_hashjoin":   "WITH c AS (SELECT (SELECT `<-` AS up FROM dual) AS x, a FROM {T}) SELECT l.a FROM c l PARALLEL HASH_JOIN c r ON l.x = r.x",
-	"cte_backref_setvar":     "WITH c AS (SELECT (SELECT `<-` AS up FROM dual) AS x, a FROM {T}) SELECT SETVAR(x, 1), GETVAR(x) AS v FROM c",
-	"cte_backref_raise":      "WITH c AS (SELECT (SELECT `<-` AS up FROM dual) AS x, a FROM {T}) SELECT RAISE(x) FROM c",
-	"cte_backref_arith":      "WITH c AS (SELECT (SELECT `<-` AS up FROM dual) AS x, a FROM {T}) SELECT x + 1 AS v, -x AS n FROM c",
-	"cte_backref_case":       "WITH c AS (SELECT (SELECT `<-` AS up FROM dual) AS x, a FROM {T}) SELECT CASE WHEN x = 1 THEN 1 WHEN x > x THEN 2 ELSE x END AS v FROM c",
-	"select_backref":         "SELECT `<-` AS up, a FROM {T}",
-	"derived_backref_union":  "SELECT * FROM (SELECT `<-` AS up FROM {T}) x UNION SELECT * FROM (SELECT `<-` AS up FROM {T}) y",
-	"parallel_join_inner":    "SELECT * FROM {T} PARALLEL JOIN {U} ON a > c",
-	"dual_subquery":          "SELECT (SELECT a FROM {T}) AS v FROM dual",
-	"select_star_alias":      "SELECT x.* FROM {T} x",
-	"window_function":        "SELECT ROW_NUMBER() OVER (ORDER BY a) AS v FROM {T}",
-	"interval":               "SELECT a + INTERVAL 1 DAY AS v FROM {T}",
-	"cast":                   "SELECT CAST(a AS CHAR) AS v, CONVERT(s, SIGNED) AS w FROM {T}",
-	"between_null":           "SELECT a FROM {T} WHERE a BETWEEN NULL AND s",
-	"like_huge_pattern":      "SELECT a FROM {T} WHERE s LIKE '{PERCENTS}'",
-	"is_on_object":           "SELECT a FROM {T} WHERE o IS TRUE",
-	"compare_objects":        "SELECT a FROM {T} WHERE o > n ORDER BY o",
+	// the back-reference in some rows only: the first row scalar and a later one cyclic, and the other way round
+	"cte_backref_case_distinct":  "WITH c AS (SELECT a, CASE WHEN a > 1 THEN (SELECT `<-` AS up FROM dual) ELSE 0 END AS x FROM {T}) SELECT DISTINCT * FROM c",
+	"cte_backref_case_distinct2": "WITH c AS (SELECT a, CASE WHEN a < 3 THEN (SELECT `<-` AS up FROM dual) ELSE 0 END AS x FROM {T}) SELECT DISTINCT * FROM c",
+	"cte_backref_case_order":     "WITH c AS (SELECT a, CASE WHEN a > 1 THEN (SELECT `<-` AS up FROM dual) ELSE 0 END AS x FROM {T}) SELECT * FROM c ORDER BY x",
+	"cte_backref_case_group":     "WITH c AS (SELECT a, CASE WHEN a > 1 THEN (SELECT `<-` AS up FROM dual) ELSE 0 END AS x FROM {T}) SELECT x, COUNT(*) AS n FROM c GROUP BY x",
+	"cte_backref_order":          "WITH c AS (SELECT (SELECT `<-` AS up FROM dual) AS x, a FROM {T}) SELECT * FROM c ORDER BY x",
+	"cte_backref_order2":         "WITH c AS (SELECT (SELECT `<-` AS up FROM dual) AS x, 1 AS k, a FROM {T}) SELECT * FROM c ORDER BY k, x",
+	"cte_backref_order3":         "WITH c AS (SELECT (SELECT `<-` AS up FROM dual) AS x, 1 AS k, a FROM {T}) SELECT * FROM c ORDER BY k DESC, k, x DESC",
+	"cte_backref_group":          "WITH c AS (SELECT (SELECT `<-` AS up FROM dual) AS x, a FROM {T}) SELECT x, COUNT(*) AS n FROM c GROUP BY x",
+	"cte_backref_where":          "WITH c AS (SELECT (SELECT `<-` AS up FROM dual) AS x, a FROM {T}) SELECT a FROM c WHERE x = x OR x > 1",
+	"cte_backref_like":           "WITH c AS (SELECT (SELECT `<-` AS up FROM dual) AS x, a FROM {T}) SELECT a FROM c WHERE x LIKE 'm%' OR x NOT LIKE '%z'",
+	"cte_backref_in":             "WITH c AS (SELECT (SELECT `<-` AS up FROM dual) AS x, a FROM {T}) SELECT a FROM c WHERE x IN (1, 'a') OR x NOT IN (2)",
+	"cte_backref_between":        "WITH c AS (SELECT (SELECT `<-` AS up FROM dual) AS x, a FROM {T}) SELECT a FROM c WHERE x BETWEEN 1 AND 5",
+	"cte_backref_concat":         "WITH c AS (SELECT (SELECT `<-` AS up FROM dual) AS x, a FROM {T}) SELECT CONCAT(x, 'a') AS v, TO_UPPER(x) AS u FROM c",
+	"cte_backref_sum":            "WITH c AS (SELECT (SELECT `<-` AS up FROM dual) AS x, a FROM {T}) SELECT SUM(x) AS s, MIN(x) AS mn, MAX(x) AS mx, AVG(x) AS av FROM c",
+	"cte_backref_changetype":     "WITH c AS (SELECT (SELECT `<-` AS up FROM dual) AS x, a FROM {T}) SELECT CHANGETYPE(x, 'double') AS d, CHANGETYPE(x, 'string') AS s FROM c",
+	"cte_backref_join":           "WITH c AS (SELECT (SELECT `<-` AS up FROM dual) AS x, a FROM {T}) SELECT l.a FROM c l JOIN c r ON l.x = r.x",
+	"cte_backref_hashjoin":       "WITH c AS (SELECT (SELECT `<-` AS up FROM dual) AS x, a FROM {T}) SELECT l.a FROM c l PARALLEL HASH_JOIN c r ON l.x = r.x",
+	"cte_backref_setvar":         "WITH c AS (SELECT (SELECT `<-` AS up FROM dual) AS x, a FROM {T}) SELECT SETVAR(x, 1), GETVAR(x) AS v FROM c",
+	"cte_backref_raise":          "WITH c AS (SELECT (SELECT `<-` AS up FROM dual) AS x, a FROM {T}) SELECT RAISE(x) FROM c",
+	"cte_backref_arith":          "WITH c AS (SELECT (SELECT `<-` AS up FROM dual) AS x, a FROM {T}) SELECT x + 1 AS v, -x AS n FROM c",
+	"cte_backref_case":           "WITH c AS (SELECT (SELECT `<-` AS up FROM dual) AS x, a FROM {T}) SELECT CASE WHEN x = 1 THEN 1 WHEN x > x THEN 2 ELSE x END AS v FROM c",
+	"select_backref":             "SELECT `<-` AS up, a FROM {T}",
+	"derived_backref_union":      "SELECT * FROM (SELECT `<-` AS up FROM {T}) x UNION SELECT * FROM (SELECT `<-` AS up FROM {T}) y",
+	"parallel_join_inner":        "SELECT * FROM {T} PARALLEL JOIN {U} ON a > c",
+	"dual_subquery":              "SELECT (SELECT a FROM {T}) AS v FROM dual",
+	"select_star_alias":          "SELECT x.* FROM {T} x",
+	"window_function":            "SELECT ROW_NUMBER() OVER (ORDER BY a) AS v FROM {T}",
+	"interval":                   "SELECT a + INTERVAL 1 DAY AS v FROM {T}",
+	"cast":                       "SELECT CAST(a AS CHAR) AS v, CONVERT(s, SIGNED) AS w FROM {T}",
+	"between_null":               "SELECT a FROM {T} WHERE a BETWEEN NULL AND s",
+	"like_huge_pattern":          "SELECT a FROM {T} WHERE s LIKE '{PERCENTS}'",
+	"is_on_object":               "SELECT a FROM {T} WHERE o IS TRUE",
+	"compare_objects":            "SELECT a FROM {T} WHERE o > n ORDER BY o",
 }
 
 func init() {
